@@ -86,9 +86,14 @@ int skinny128_set_tweak(Skinny128TweakedKey_t *s, const void *t, unsigned n) { (
 int skinny64_set_tweak(Skinny64TweakedKey_t *s, const void *t, unsigned n) { (void)s; return tk_tweak(8, t, n); }
 static void blk_crypt(unsigned bs, int enc, void *o, const void *i)
 {
-    uint8_t want[MAX_TWEAK_SIZE]; memset(want, 0, sizeof want); memcpy(want, T0, tweak_size); vh_be_add(want, (int)tweak_size, n_blocks);
+    /* expected tweak of block i: the user's tweak incremented i times as a big-endian integer of the given length (kept as a
+       running value: comparing against T0 + i computed in one step made the solver prove 129 iterated increments equal to
+       one addition, 12 minutes instead of one) */
+    static uint8_t want[MAX_TWEAK_SIZE]; static int want_init;
+    if (!want_init) { memset(want, 0, sizeof want); memcpy(want, T0, tweak_size); want_init = 1; }
     if (block_size != bs || !keyed) bad_req = 1;
     for (unsigned j = 0; j < MAX_TWEAK_SIZE; j++) if (cur_tweak[j] != want[j]) bad_tweak = 1;           /* block i under tweak T0 + i */
+    vh_be_inc(want, (int)tweak_size);
     if (enc != (encrypt != 0)) bad_dir = 1;
     for (unsigned j = 0; j < bs; j++) ((uint8_t *)o)[j] = ((const uint8_t *)i)[j] ^ sym_pad[(size_t)n_blocks * bs + j];
     n_blocks++;
